@@ -21,6 +21,29 @@ pub fn class_inputs(seed: u64, c: u64) -> (Params, SampleSet) {
         p.pack = *rng.pick(&[2usize, 3, 5, 7, 11]);
     }
     let shape = Shape { max_samples: 9, max_contigs: 8, max_contig_len: 6000, iupac: true, allow_many_samples: false };
+    if c % 16 == 5 {
+        // one class per sixteen with megabases of new sequence in a single sync round: the
+        // parallel compression phase then produces hundreds of KiB of parts (buffers that are
+        // flushed by size, slabs handed out by whoever comes first, ... only show at this scale)
+        p.k = 21;
+        p.segment_size = *rng.pick(&[10_000usize, 20_000, 60_000]);
+        p.fallback = 0.0;
+        let l = rng.usize(2_600_000, 3_400_000);
+        let base = gen::random_bases(&mut rng, l);
+        let mut second = base.clone();
+        for _ in 0..l / 500 {
+            let at = rng.usize(0, l - 1);
+            second[at] = rng.below(4) as u8;
+        }
+        let set = SampleSet {
+            samples: vec![
+                gen::Sample { name: "D000#0".into(), contigs: vec![("D000#0#c0".into(), base)] },
+                gen::Sample { name: "D001#1".into(), contigs: vec![("D001#1#c0".into(), second), ("D001#1#c1".into(), gen::random_bases(&mut rng, 300_000))] },
+            ],
+            pansn: true,
+        };
+        return (p, set);
+    }
     let mut set = gen::sample_set(&mut rng, &p, &shape);
     // make sure there is enough work for several workers and several rounds
     while set.samples.len() < 3 {
@@ -165,6 +188,9 @@ pub fn run(args: &Args, rep: &mut Report) {
             }
         }
         rep.count("classes", 1);
+        if set.total_bases() > 2_000_000 {
+            rep.count("classes_with_megabases_in_one_sync_round", 1);
+        }
         rep.count("distinct_interleaving_signatures", sigs.len() as u64);
         rep.max("max_sync_rounds_in_a_run", max_rounds);
         if sigs.len() >= 2 {
